@@ -10,8 +10,10 @@ from simnet import proto, scen, tunnelscn
 from simnet.scen import US
 
 
-def integrity_violations(k):
-    """Offline monitor over the event log: returns (violations, stats)."""
+def integrity_violations(k, own_ip=None):
+    """Offline monitor over the event log: returns (violations, stats).  own_ip: process name -> its tunnel address."""
+    import socket
+    own_ip = own_ip or {}
     reads = {}      # frame bytes -> set of reader names (seen so far)
     viol = []
     stats = {"tun_reads": 0, "tun_writes": 0, "repeat_deliveries": 0, "multi_frag_delivered": 0}
@@ -29,9 +31,13 @@ def integrity_violations(k):
                 viol.append((ev[0], ev[2], w))
             else:
                 if not (src - {ev[2]}):
-                    # a client's own packet routed back to it by the server (addressed to its own
-                    # tunnel IP, or a runt without IP header): identical bytes, not a fabrication;
-                    # who may receive what is C04's business
+                    # a client's own packet routed back to it by the server: legitimate when it is addressed to
+                    # the client's own tunnel address (or is a runt without a complete IP header, which iodined
+                    # routes by whatever the buffer holds).  Anything else it once sent coming back to it is
+                    # neither "from its peer" nor "from another client": the server mixed up its buffers.
+                    me = own_ip.get(ev[2])
+                    if len(w) >= 24 and me is not None and w[20:24] != socket.inet_aton(me):
+                        viol.append((ev[0], ev[2], w))
                     stats["hairpin_deliveries"] = stats.get("hairpin_deliveries", 0) + 1
                 if (ev[2], w) in delivered:
                     stats["repeat_deliveries"] += 1
@@ -92,11 +98,11 @@ def scn(params):
             out["inconclusive"] = t.why.split(":")[0]
             out["stats"]["inconclusive_" + t.why.split(":")[0]] = 1
             return out
-        viol, st = integrity_violations(k)
+        viol, st = integrity_violations(k, {c.name: ip for c, ip in zip(t.clients, t.tun_ips)})
         out["stats"].update(st)
         for (ts, who, w) in viol[:3]:
             out["violations"].append(("C01:fabricated-frame:%s" % ("server" if who == "srv" else "client"),
-                                      "%s wrote a %d-byte frame to its tun that nobody ever read from a tun" % (who, len(w)),
+                                      "%s wrote a %d-byte frame to its tun that nobody else ever read from a tun" % (who, len(w)),
                                       {"seed": seed, "cfg": cfg, "time_us": ts, "frame": w.hex()[:400],
                                        "negotiated": t.neg}))
         # health is recorded, not judged here (C05/C06/C02 judge it)
